@@ -11,6 +11,28 @@ use serde_json::{json, Value};
 
 pub const TOPICS: [&str; 4] = ["", "a", "ab", "b"];
 
+/// topic #i as bytes: the four of the exhaustive part, then (random part only) long and binary
+/// ones: 300 bytes equal to the long publish's first frame, 301 bytes (longer than anything
+/// published), topics containing 0x00 / 0x01 (the subscribe / unsubscribe marker values), 255
+/// and 256 bytes
+pub fn topic(i: u8) -> Vec<u8> {
+    let long = |n: usize| {
+        let mut v = b"ab".to_vec();
+        v.extend(std::iter::repeat(b'z').take(n - 2));
+        v
+    };
+    match i {
+        0..=3 => TOPICS[i as usize].as_bytes().to_vec(),
+        4 => long(300),
+        5 => long(301),
+        6 => vec![0u8],
+        7 => vec![1u8, 0u8],
+        8 => long(255),
+        _ => long(256),
+    }
+}
+pub const N_TOPICS: u8 = 10;
+
 #[derive(Debug, Clone, Copy, Serialize, Deserialize, PartialEq, Eq, Hash)]
 pub enum Tok {
     Sub(u8),
@@ -40,12 +62,12 @@ impl Tok {
         match self {
             Tok::Sub(t) => {
                 let mut f = vec![1u8];
-                f.extend_from_slice(TOPICS[*t as usize].as_bytes());
+                f.extend_from_slice(&topic(*t));
                 vec![f]
             }
             Tok::Unsub(t) => {
                 let mut f = vec![0u8];
-                f.extend_from_slice(TOPICS[*t as usize].as_bytes());
+                f.extend_from_slice(&topic(*t));
                 vec![f]
             }
             Tok::Garbage(0) => vec![vec![]],
@@ -65,10 +87,10 @@ pub struct Model {
 impl Model {
     pub fn apply(&mut self, t: &Tok) {
         match t {
-            Tok::Sub(i) => self.subs.push(TOPICS[*i as usize].as_bytes().to_vec()),
+            Tok::Sub(i) => self.subs.push(topic(*i)),
             Tok::Unsub(i) => {
-                let topic = TOPICS[*i as usize].as_bytes();
-                if let Some(p) = self.subs.iter().position(|s| s == topic) {
+                let topic = topic(*i);
+                if let Some(p) = self.subs.iter().position(|s| *s == topic) {
                     self.subs.remove(p);
                 }
             }
@@ -94,6 +116,9 @@ pub fn publishes() -> Vec<Frames> {
         vec![b"b".to_vec(), b"1".to_vec()],
         vec![b"c".to_vec()],
         vec![long, b"tail".to_vec()],
+        // (random part only) first frames made of the marker byte values
+        vec![vec![0u8, 1u8], b"z".to_vec()],
+        vec![vec![1u8, 0u8, 5u8]],
     ]
 }
 
@@ -307,7 +332,9 @@ pub fn filter_outcome(c: &FilterCase) -> Outcome {
 /// every history of length <= max_len for one subscriber, followed by all publishes
 fn exhaustive_histories(xpub: bool, max_len: usize) -> Vec<FilterCase> {
     let mut v = vec![];
-    let np = publishes().len();
+    // the exhaustive part keeps to the first 7 publishes (9 would add 30 % for the marker-byte
+    // topics, which only the random part subscribes to)
+    let np = 7;
     for len in 0..=max_len {
         let total = ALL_TOKS.len().pow(len as u32);
         for mut code in 0..total {
@@ -328,16 +355,29 @@ fn exhaustive_histories(xpub: bool, max_len: usize) -> Vec<FilterCase> {
 fn gen_filter(s: &mut Src<'_>) -> FilterCase {
     let xpub = s.bool();
     let subscribers = s.range(1, 4);
-    let n = s.range(3, 30);
+    // one history in five is long (behaviour that depends on how many subscriptions went before)
+    let n = if s.chance(1, 5) { s.range(40, 150) } else { s.range(3, 30) };
+    let np = publishes().len();
     let steps = (0..n)
         .map(|_| {
             if s.chance(1, 3) {
-                Step::Publish(s.below(7))
+                Step::Publish(s.below(np))
             } else {
-                Step::Peer(s.below(subscribers), s.pick(&ALL_TOKS))
+                // mostly the small alphabet; one token in four uses a long / binary topic
+                let tok = if s.chance(1, 4) {
+                    let t = s.range(4, N_TOPICS as usize - 1) as u8;
+                    if s.chance(2, 3) {
+                        Tok::Sub(t)
+                    } else {
+                        Tok::Unsub(t)
+                    }
+                } else {
+                    s.pick(&ALL_TOKS)
+                };
+                Step::Peer(s.below(subscribers), tok)
             }
         })
-        .chain((0..7).map(Step::Publish))
+        .chain((0..np).map(Step::Publish))
         .collect();
     FilterCase { xpub, subscribers, steps }
 }
@@ -374,7 +414,7 @@ pub fn run(ctx: &Ctx) -> (Report, PropertyMeta) {
 
     let meta = PropertyMeta {
         level: "exploration",
-        rule: format!("real PUB and XPUB sockets with raw SUB peers over in-memory pipes. ALL per-subscriber histories of length <= {} over {{subscribe t, unsubscribe t for t in \"\", a, ab, b; empty frame; first byte 2; two two-frame messages}} each followed by publishes with first frames {{\"\", a, ab, abc, b, c, 300-byte ab..}} (1..3 frames); proptest histories of length <= 30 for 1..4 subscribers with interleaved publishes. Oracle: reference multiset-prefix model per connection (subscribe = push, unsubscribe = remove one equal, garbage = no-op) compared at quiescent points (PUB: tokio yields until its reader tasks are idle; XPUB: the application recvs until nothing is deliverable): each subscriber's wire decodes to exactly the published messages the model matches, once each, in publish order; XPUB: recv returns every subscription message verbatim and in per-peer order. Non-trivial = history has a duplicate, an overlap, an unsubscribe, or a topic as long as a first frame; distinct by history", l),
+        rule: format!("real PUB and XPUB sockets with raw SUB peers over in-memory pipes. ALL per-subscriber histories of length <= {} over {{subscribe t, unsubscribe t for t in \"\", a, ab, b; empty frame; first byte 2; two two-frame messages}} each followed by publishes with first frames {{\"\", a, ab, abc, b, c, 300-byte ab..}} (1..3 frames); proptest histories of length <= 30 (one in five: 40..150) for 1..4 subscribers with interleaved publishes, one token in four using long or binary topics (255 / 256 / 300 / 301 bytes, topics made of the marker bytes 0x00 / 0x01) and publishes whose first frame consists of marker bytes. Oracle: reference multiset-prefix model per connection (subscribe = push, unsubscribe = remove one equal, garbage = no-op) compared at quiescent points (PUB: tokio yields until its reader tasks are idle; XPUB: the application recvs until nothing is deliverable): each subscriber's wire decodes to exactly the published messages the model matches, once each, in publish order; XPUB: recv returns every subscription message verbatim and in per-peer order. Non-trivial = history has a duplicate, an overlap, an unsubscribe, or a topic as long as a first frame; distinct by history", l),
         assumptions: vec!["comparison only at quiescent points (subscription processing is asynchronous by design)".into()],
         exhaustive: false,
     };
